@@ -33,6 +33,11 @@ func (p *C04) Level() string { return "fault_enumeration" }
 
 var tokenAlphabet = []string{"C", "G", "R", "1", "5", "12", "#", "b", "♯", "♭", "m", "m7", "dim", "_", "/", "[", "]", ",", "{", "}", "=", ";", "txt", "x y", "\n", " "}
 
+// junkRunes: characters no rule of the tokenisation treats specially (they
+// can only be part of a symbol or of a metadata token): control characters,
+// and letters whose low byte equals one of the delimiters / [ _ ; = { } , ] #.
+var junkRunes = []string{"\x00", "\x01", "\x1a", "\x1b", "\x7f", "\u0085", "\u009b", "ś", "į", "ş", "Ļ", "Ľ", "⼯", "ŝ", "ū", "ŭ", "Ĭ", "ģ", "ő", "\ufeff", "\u200b", "\u2028", "\ufffd", "\U0001F3B5", "％", "［", "；"}
+
 func (p *C04) Prepare(env *Env, tier string, seed uint64) error {
 	if err := p.w.Load(env); err != nil {
 		return err
@@ -90,14 +95,22 @@ func (p *C04) Prepare(env *Env, tier string, seed uint64) error {
 		}
 		// token-level mutations
 		toks := model.TokenSpans(s.Text)
-		nm := 6
+		nm := 8
 		if len(toks) > 1 {
 			for m := 0; m < nm; m++ {
 				i := r.Intn(len(toks))
 				t := toks[i]
 				var mt string
 				var kind string
-				switch r.Intn(5) {
+				switch r.Intn(7) {
+				case 5, 6:
+					// a character no tokenisation rule knows, directly at a token boundary
+					kind = "junk"
+					at := t.Start
+					if r.Chance(1, 2) {
+						at = t.End
+					}
+					mt = s.Text[:at] + model.Pick(r, junkRunes) + s.Text[at:]
 				case 0:
 					kind = "delete"
 					mt = s.Text[:t.Start] + s.Text[t.End:]
@@ -129,6 +142,9 @@ func (p *C04) Prepare(env *Env, tier string, seed uint64) error {
 		n := 1 + r.Intn(9)
 		var sb strings.Builder
 		for j := 0; j < n; j++ {
+			if r.Chance(1, 12) {
+				sb.WriteString(model.Pick(r, junkRunes))
+			}
 			sb.WriteString(model.Pick(r, tokenAlphabet))
 			if r.Chance(1, 4) {
 				sb.WriteString(" ")
